@@ -278,6 +278,7 @@ func (w *Writer) Size() int64 {
 }
 
 func (w *Writer) Sync() error {
+	verifhook.FS("fsync-begin", "message.Writer.Sync", w.Path, "")
 	if err := w.f.Sync(); err != nil {
 		return fmt.Errorf("write log sync: %w", err)
 	}
